@@ -375,6 +375,8 @@ func c19Run(r *zsim.Run) {
 	rotations = 0
 	nsteps := 3 + o.Intn(12)
 	seq := 0
+	reuseBuf := o.Intn(2) == 0
+	var scratch []byte
 	for s := 0; s < nsteps && !r.Failed(); s++ {
 		switch o.Intn(7) {
 		case 6: // the process restarts: the logger is closed and a new one is opened on the same, non-empty, file
@@ -420,7 +422,19 @@ func c19Run(r *zsim.Run) {
 				seq++
 				pad := o.Intn(120)
 				rec := fmt.Sprintf("rec-%06d %s\n", seq, strings.Repeat("x", pad))
-				nw, err := l.Write([]byte(rec))
+				var nw int
+				var err error
+				if reuseBuf {
+					// an io.Writer must not retain the slice: the caller (fmt.Fprint does this) reuses its buffer as
+					// soon as Write has returned
+					scratch = append(scratch[:0], rec...)
+					nw, err = l.Write(scratch)
+					for j := range scratch {
+						scratch[j] = '#'
+					}
+				} else {
+					nw, err = l.Write([]byte(rec))
+				}
 				if err != nil || nw != len(rec) {
 					r.Failf("write-rejected", "Write on an open logger returned (%d, %v)", nw, err)
 					return
